@@ -37,6 +37,7 @@ type evPlugin struct {
 	Reg  int    `json:"reg"`
 	Lo   int    `json:"lo"`
 	Hi   int    `json:"hi"`
+	Gone int    `json:"gone"` // position of the common order from which on the plugin is disconnected (>= length: stayed)
 	Note string `json:"note,omitempty"`
 }
 
@@ -80,6 +81,8 @@ type histPlan struct {
 	plugins []evPlugin
 	phase1  []api.Event // fired while the plugins register
 	phase2  []api.Event
+	stop    []int       // positions in plugins of the plugins that stop after phase 2 …
+	phase3  []api.Event // … and the requests fired after that (no registration follows)
 	g       int
 }
 
@@ -178,6 +181,23 @@ func runHistory(c *hx.Ctx, r *rand.Rand, stream string, hid int, plan histPlan) 
 	// phase 2
 	fireAll(plan.phase2, 1+len(plan.phase1), plan.g)
 	wg.Wait()
+	// phase 3: some plugins stop (orderly for stubs, abruptly for raw sessions); further requests, no registration
+	gonePos := obs.count()
+	for _, i := range plan.stop {
+		plugs[i].stop()
+		if startErr[i] != nil {
+			continue
+		}
+		select {
+		case <-plugs[i].closed:
+		case <-time.After(10 * time.Second):
+			return nil, fmt.Errorf("history %d: stopped plugin %s never saw its connection close", hid, plugs[i].name)
+		}
+	}
+	if len(plan.phase3) > 0 {
+		fireAll(plan.phase3, 1+len(plan.phase1)+len(plan.phase2), plan.g)
+		wg.Wait()
+	}
 
 	// ---- collect
 	type entry struct {
@@ -193,14 +213,22 @@ func runHistory(c *hx.Ctx, r *rand.Rand, stream string, hid int, plan histPlan) 
 		pos[rid] = k
 		all = append(all, entry{inv.Seq, 0, rid})
 	}
-	total := len(plan.phase1) + len(plan.phase2)
+	total := len(plan.phase1) + len(plan.phase2) + len(plan.phase3)
+	stopped := map[int]bool{}
+	for _, i := range plan.stop {
+		stopped[i] = true
+	}
 	if len(cs.Sigma) != total {
 		return nil, fmt.Errorf("history %d: observer saw %d of %d requests", hid, len(cs.Sigma), total)
 	}
-	cs.Plugins = append(cs.Plugins, evPlugin{ID: 0, Idx: "00", Name: "obs", Raw: int32(api.ValidEvents), Kind: "stub", Reg: 0, Lo: 0, Hi: 0})
+	cs.Plugins = append(cs.Plugins, evPlugin{ID: 0, Idx: "00", Name: "obs", Raw: int32(api.ValidEvents), Kind: "stub", Reg: 0, Lo: 0, Hi: 0, Gone: total})
 	for i, p := range plugs {
 		sp := plan.plugins[i]
 		sp.Hi = hi
+		sp.Gone = total
+		if stopped[i] {
+			sp.Gone = gonePos
+		}
 		first := total
 		for _, inv := range p.invocations() {
 			rid := ridOf(inv.Pod, inv.Ctr)
@@ -295,6 +323,9 @@ func historyOracle(cs *evCase) string {
 			if p.Reg > k {
 				return fmt.Sprintf("request %d: plugin %s-%s invoked before its registration point", rid, p.Idx, p.Name)
 			}
+			if k >= p.Gone {
+				return fmt.Sprintf("request %d: plugin %s-%s invoked after it had stopped", rid, p.Idx, p.Name)
+			}
 			if i > 0 && byID[b.pids[i-1]].Idx > p.Idx {
 				return fmt.Sprintf("request %d: plugin %s invoked before %s", rid, byID[b.pids[i-1]].Idx+"-"+byID[b.pids[i-1]].Name, p.Idx+"-"+p.Name)
 			}
@@ -302,7 +333,7 @@ func historyOracle(cs *evCase) string {
 		}
 		for i := range cs.Plugins {
 			p := &cs.Plugins[i]
-			if sub, ok := subOf(p.Raw, ev); ok && sub && p.Reg <= k && !seen[p.ID] {
+			if sub, ok := subOf(p.Raw, ev); ok && sub && p.Reg <= k && k < p.Gone && !seen[p.ID] {
 				return fmt.Sprintf("request %d (event %d): subscribed plugin %s-%s (mask %#x, registered from position %d) was not invoked", rid, ev, p.Idx, p.Name, uint32(p.Raw), p.Reg)
 			}
 		}
@@ -327,9 +358,9 @@ func historyOracle(cs *evCase) string {
 func evCaseTerm(cs *evCase) string {
 	var ps, sg, lg, rs []string
 	for _, p := range cs.Plugins {
-		ps = append(ps, fmt.Sprintf("{| ep_id := %s; ep_idx := %s; ep_name := %s; ep_raw := %s; ep_reg := %s; ep_lo := %s; ep_hi := %s |}",
+		ps = append(ps, fmt.Sprintf("{| ep_id := %s; ep_idx := %s; ep_name := %s; ep_raw := %s; ep_reg := %s; ep_lo := %s; ep_hi := %s; ep_gone := %s |}",
 			coqfmt.N(uint64(p.ID)), coqfmt.Str(p.Idx), coqfmt.Str(p.Name), coqfmt.Z(int64(p.Raw)),
-			coqfmt.Nat(p.Reg), coqfmt.Nat(p.Lo), coqfmt.Nat(p.Hi)))
+			coqfmt.Nat(p.Reg), coqfmt.Nat(p.Lo), coqfmt.Nat(p.Hi), coqfmt.Nat(p.Gone)))
 	}
 	for _, s := range cs.Sigma {
 		sg = append(sg, coqfmt.Pair(coqfmt.N(uint64(s[0])), coqfmt.Z(int64(s[1]))))
@@ -465,7 +496,7 @@ func driveEvents(c *hx.Ctx) error {
 	r := c.Rand("events/histories")
 	sh := c.NewShard("histories", imports, "ev_case", "corr_events", "holds_events", 40)
 	n := c.Pick(400, 1500)
-	ties, concurrent, midreg := 0, 0, 0
+	ties, concurrent, midreg, leavers := 0, 0, 0, 0
 	for h := 0; h < n; h++ {
 		k := 2 + r.Intn(7)
 		plan := histPlan{g: 1 + r.Intn(6)}
@@ -489,6 +520,13 @@ func driveEvents(c *hx.Ctx) error {
 		}
 		plan.phase1 = randEvents(r, r.Intn(25))
 		plan.phase2 = randEvents(r, 30+r.Intn(30))
+		if k >= 3 && r.Intn(3) == 0 {
+			// one or two plugins stop after two thirds of phase 2; nobody registers afterwards
+			cut := len(plan.phase2) * 2 / 3
+			plan.phase2, plan.phase3 = plan.phase2[:cut], plan.phase2[cut:]
+			plan.stop = r.Perm(k)[:1+r.Intn(2)]
+			leavers++
+		}
 		cs, err := runHistory(c, r, "histories", h, plan)
 		if err != nil {
 			return err
@@ -512,11 +550,45 @@ func driveEvents(c *hx.Ctx) error {
 			c.Sample(map[string]interface{}{"history": h, "plugins": cs.Plugins, "requests": len(cs.Sigma), "invocations": len(cs.Log), "goroutines": plan.g}, 6)
 		}
 	}
+	c.Count("events.histories.with_a_plugin_stopping", leavers)
 	c.Count("events.histories.with_equal_indices", ties)
 	c.Count("events.histories.concurrent_callers", concurrent)
 	c.Count("events.plugins.registered_amid_requests", midreg)
 	if ties == 0 || concurrent == 0 {
 		c.HarnessError("events: generator produced no history with equal indices (%d) or concurrent callers (%d)", ties, concurrent)
+	}
+
+	// --- stream "leave": 4-6 all-events plugins with distinct indices; one of them — any position, the
+	// lowest index included — stops mid-history; the remaining ones must still be asked in index order
+	rl := c.Rand("events/leave")
+	ls := c.NewShard("leave", imports, "ev_case", "corr_events", "holds_events", 60)
+	for h := 0; h < c.Pick(24, 150); h++ {
+		k := 4 + rl.Intn(3)
+		plan := histPlan{g: 1 + rl.Intn(4)}
+		for i, ix := range rl.Perm(100)[:k] {
+			kind := "stub"
+			if rl.Intn(4) == 0 {
+				kind = "raw"
+			}
+			plan.plugins = append(plan.plugins, evPlugin{ID: i + 1, Idx: fmt.Sprintf("%02d", ix), Name: fmt.Sprintf("L%d", i+1), Raw: int32(api.ValidEvents), Kind: kind})
+		}
+		// which plugin leaves: cycle through the ranks (0 = lowest index) so that every rank occurs
+		rank := h % k
+		order := make([]int, k)
+		for i := range order {
+			order[i] = i
+		}
+		sort.Slice(order, func(a, b int) bool { return plan.plugins[order[a]].Idx < plan.plugins[order[b]].Idx })
+		plan.stop = []int{order[rank]}
+		plan.phase2 = randEvents(rl, 8+rl.Intn(8))
+		plan.phase3 = randEvents(rl, 12+rl.Intn(10))
+		cs, err := runHistory(c, rl, "leave", h, plan)
+		if err != nil {
+			return err
+		}
+		emit(ls, cs)
+		c.Eval(fmt.Sprintf("leave/%d/%d", c.Seed, h), true)
+		c.Count(fmt.Sprintf("events.leave.rank_%d_of_%d", rank, k), 1)
 	}
 
 	// --- stream "sweep": masks x the thirteen events; every mask 1..ValidEvents in the
@@ -588,6 +660,6 @@ func driveEvents(c *hx.Ctx) error {
 		c.Eval(fmt.Sprintf("wire/%d/%d", c.Seed, h), true)
 	}
 	c.Stats.Exhaustive = !c.Quick()
-	c.Stats.Rule = "histories: a fresh Adaptation per history, an all-events observer at index 00, 2-8 plugins (real stub or hand-made mux+ttrpc session) with random and equal indices and random masks registering in random order/timing while 0-24 requests run, then 30-59 requests over the thirteen entry points from 1-6 concurrent goroutines; non-trivial = concurrent callers or a plugin registered amid requests. sweep: eight masks per history x all thirteen events (thorough: every mask 1..ValidEvents, exhaustive; quick: 256 sampled masks). wiremasks: masks only a raw session can send (0 = everything, bits outside ValidEvents, sign bit)."
+	c.Stats.Rule = "histories: a fresh Adaptation per history, an all-events observer at index 00, 2-8 plugins (real stub or hand-made mux+ttrpc session) with random and equal indices and random masks registering in random order/timing while 0-24 requests run, then 30-59 requests over the thirteen entry points from 1-6 concurrent goroutines; non-trivial = concurrent callers or a plugin registered amid requests; in a third of the histories one or two plugins stop after two thirds of the requests. leave: 4-6 all-events plugins with distinct indices, the plugin of each index rank in turn stops mid-history, 12-21 further requests without any registration. sweep: eight masks per history x all thirteen events (thorough: every mask 1..ValidEvents, exhaustive; quick: 256 sampled masks). wiremasks: masks only a raw session can send (0 = everything, bits outside ValidEvents, sign bit)."
 	return nil
 }
